@@ -929,7 +929,7 @@ def run_optimiser_case(cfg):
 def gen_runs(ctx):
     r = ctx.rng
     runs = []
-    for k in range(ctx.budget(9, 30)):
+    for k in range(ctx.budget(6, 30)):
         sc = ['steady_state', 'parameter_free', 'generational'][k % 3]
         multi = r.random() < 0.25
         n0 = r.randint(3, 6)
